@@ -198,6 +198,39 @@ func (c *Ctx) AnalyzeFrom(fn *ssa.Function, st *ir.State, cacheKey string) *ir.A
 	return an
 }
 
+// AnalyzeLoops: like Analyze, but callees with loops are inlined too (helper extraction of a loop is followed).
+func (c *Ctx) AnalyzeLoops(fn *ssa.Function) *ir.Analysis {
+	return c.analyzeLoopsFrom(fn, ir.NewRootState(fn, nil, nil, nil), "")
+}
+
+func (c *Ctx) analyzeLoopsFrom(fn *ssa.Function, st *ir.State, cacheKey string) *ir.Analysis {
+	k := ir.FuncName(fn) + "|loops|" + cacheKey
+	if a, ok := c.cache[k]; ok {
+		return a
+	}
+	o := *c.Options()
+	o.LoopInline = true
+	an := ir.Analyze(fn, st, &o)
+	c.cache[k] = an
+	if !c.Funcs[k] {
+		c.Funcs[k] = true
+		c.Paths += an.NPaths
+		for _, p := range an.AllPaths() {
+			c.Events += len(p.Steps)
+		}
+	}
+	return an
+}
+
+// AnalyzeSpawnLoops: AnalyzeSpawn with loop inlining.
+func (c *Ctx) AnalyzeSpawnLoops(s *ir.Step) (*ssa.Function, *ir.Analysis) {
+	fn, st := ir.SpawnState(s)
+	if fn == nil {
+		return nil, nil
+	}
+	return fn, c.analyzeLoopsFrom(fn, st, "spawn@"+c.W.Pos(s.Pos()))
+}
+
 // AnalyzeSpawn analyses the function started by a go step.
 func (c *Ctx) AnalyzeSpawn(s *ir.Step) (*ssa.Function, *ir.Analysis) {
 	fn, st := ir.SpawnState(s)
